@@ -19,7 +19,7 @@ func (c16) ID() string { return "C16" }
 func (c16) Meta(tier string) engine.Meta {
 	return engine.Meta{
 		Level: "model_checking",
-		Rule: "(a) for EVERY documented overload (polymorphic ones instantiated over 5 element types / 2 map shapes) and EVERY parameter position, the call with an optional-typed argument maybe[T] in that position — as a variable (present and absent), as an object field, as a list element and as a map value — all other arguments ordinary; (b) 40 direct uses of optionals (member / subscript / operators / conditions / nesting / get with right and wrong defaults); (c) containers (slices, maps, nested) of structs whose pointer field is present in some elements and absent in others — inconsistent data that must be refused, never evaluated with an absent value standing for a number — and one Callable invoked with a present and then an absent pointer of the same Go type; (d) all well-typed programs of depth <= 2 (one nested operand) over host structs whose pointer, slice and map fields are nil / non-nil, tagged `,maybe` and untagged (16 environments; the grammar follows the types each environment really has). Oracle: compile-time acceptance equals the reference checker's (an optional is accepted only by a bare type variable or by get(maybe[a], a)); get yields the payload when present and the default otherwise; no accepted program fails at run time on any back end except where the reference predicts a documented partial-operation failure. non-trivial = every case",
+		Rule: "(a) for EVERY documented overload (polymorphic ones instantiated over 5 element types / 2 map shapes) and EVERY parameter position, the call with an optional-typed argument maybe[T] in that position — as a variable (present and absent), as an object field, as a list element and as a map value — all other arguments ordinary; (b) 112 direct uses of optionals (member / subscript / operators / conditions / nesting / get with right and wrong defaults; maps, lists and objects of optionals mixed with the same containers of plain values under if / list / map / get / == / union); (c) containers (slices, maps, nested) of structs whose pointer field is present in some elements and absent in others — inconsistent data that must be refused, never evaluated with an absent value standing for a number — and one Callable invoked with a present and then an absent pointer of the same Go type; (d) all well-typed programs of depth <= 2 (one nested operand) over host structs whose pointer, slice and map fields are nil / non-nil, tagged `,maybe` and untagged (16 environments; the grammar follows the types each environment really has; 4 of them also with blank-padded, mixed-case struct tags). Oracle: compile-time acceptance equals the reference checker's (an optional is accepted only by a bare type variable or by get(maybe[a], a)); get yields the payload when present and the default otherwise; no accepted program fails at run time on any back end except where the reference predicts a documented partial-operation failure. non-trivial = every case",
 		Bound: "built-in arity <= 3; depth 2; 16 host environments",
 		Assumptions: []string{"reference typing rules of C05"},
 	}
@@ -103,6 +103,10 @@ func (c16) Generate(tier string, yield func(*engine.Case) bool) {
 			{Name: "mn", V: mk(ref.NumV(4))}, {Name: "ms", V: mk(ref.StrV("s"))}, {Name: "mbo", V: mk(ref.BoolV(true))},
 			{Name: "mo", V: mk(oab(1, "x"))}, {Name: "ml", V: mk(ref.ListV(gen.Num, nums(1, 2)...))}, {Name: "mm", V: mk(ref.MapV(gen.Str, gen.Num, ref.StrV("k"), ref.NumV(1)))},
 			{Name: "mmn", V: mk(mk(ref.NumV(4)))}, {Name: "o", V: oab(9, "d")}, {Name: "n", V: ref.NumV(7)},
+			// optionals nested one level inside containers, next to the same containers of plain values
+			{Name: "mpo", V: ref.MapV(gen.Str, gen.Maybe(gen.Num), ref.StrV("a"), mk(ref.NumV(4)))}, {Name: "mpn", V: ref.MapV(gen.Str, gen.Num, ref.StrV("a"), ref.NumV(4))},
+			{Name: "lo", V: ref.ListV(gen.Maybe(gen.Num), mk(ref.NumV(4)))}, {Name: "ln", V: ref.ListV(gen.Num, ref.NumV(4))},
+			{Name: "oo", V: ref.ObjV([]string{"a"}, mk(ref.NumV(4)))}, {Name: "on", V: ref.ObjV([]string{"a"}, ref.NumV(4))},
 		}}
 		v := gen.VarT
 		get := func(a ...*gen.Term) *gen.Term { return gen.CallT("get", a...) }
@@ -116,6 +120,25 @@ func (c16) Generate(tier string, yield func(*engine.Case) bool) {
 			get(v("mn"), gen.StrT("wrong")), get(v("mn"), v("mn")), get(v("mmn"), v("mn")), get(get(v("mmn"), v("mn")), gen.NumT(0)), get(v("mmn"), gen.NumT(0)),
 			get(v("n"), gen.NumT(0)), get(v("ml"), gen.NumT(0), gen.NumT(1)), gen.Infix("+", get(v("mn"), gen.NumT(0)), get(v("mn"), gen.NumT(1))), gen.CallT("if", gen.BoolT(true), v("mn"), v("mn")),
 			gen.CallT("if", gen.BoolT(true), v("mn"), gen.NumT(1)), get(gen.CallT("if", gen.BoolT(false), v("mn"), v("mn")), gen.NumT(3)),
+		}
+		// a container of optionals must never be taken for the same container of plain values
+		for _, pr := range [][2]string{{"mpo", "mpn"}, {"lo", "ln"}, {"oo", "on"}} {
+			use := func(t *gen.Term) *gen.Term {
+				switch pr[0] {
+				case "mpo":
+					t = gen.SubT(t, gen.StrT("a"))
+				case "lo":
+					t = gen.SubT(t, gen.NumT(0))
+				default:
+					t = gen.MemT(t, "a")
+				}
+				return gen.Infix("+", t, gen.NumT(1))
+			}
+			for _, xy := range [][2]string{{pr[0], pr[1]}, {pr[1], pr[0]}, {pr[0], pr[0]}, {pr[1], pr[1]}} {
+				x, y := v(xy[0]), v(xy[1])
+				progs = append(progs, use(gen.CallT("if", gen.BoolT(false), x, y)), use(gen.SubT(gen.ListT(x, y), gen.NumT(1))), use(get(gen.ListT(x), gen.NumT(3), y)),
+					gen.Infix("==", x, y), use(gen.SubT(gen.MapT(gen.StrT("p"), x, gen.StrT("q"), y), gen.StrT("q"))), gen.CallT("union", gen.ListT(x), gen.ListT(y)))
+			}
 		}
 		for _, p := range progs {
 			emit(progCase("direct-use", p, env, fmt.Sprintf("present=%v", present)))
@@ -135,6 +158,13 @@ func (c16) Generate(tier string, yield func(*engine.Case) bool) {
 				emit(progCase("host-nil", t, env, fmt.Sprintf("v%d", variant)))
 				return ok
 			})
+			// the same struct declared with blanks / mixed case inside its tags (depth <= 1)
+			if variant == 0 || variant == 5 || variant == 10 || variant == 15 {
+				g.Each(ty, 1, func(t *gen.Term) bool {
+					emit(progCase("host-nil-padded-tags", t, env, fmt.Sprintf("v%d", variant)))
+					return ok
+				})
+			}
 		}
 	}
 }
@@ -217,7 +247,9 @@ func (c16) Run(c *engine.Case) *engine.Result {
 	}
 	d := loadProg(c)
 	h := real.StdHost()
+	real.PadTags = c.Family == "host-nil-padded-tags"
 	p := observe(d.Term, d.Env, h, real.Backends, true)
+	real.PadTags = false
 	res := &engine.Result{Execs: p.Execs, NonTrivial: true}
 	res.Outcome = fmt.Sprintf("ref=%s %s", p.refOutcomeType(), p.outcomeSummary())
 	rename := map[string]string{
